@@ -257,10 +257,16 @@ def slice_main(src):
             continue
         if st[0] == "block" and "ibz_mat_4x4_inv_with_det_as_denom" in st[1]:
             t = " ".join(st[1].split())
-            if not re.search(r"int full_rank = ibz_mat_4x4_inv_with_det_as_denom\(NULL, &det, &lattice->basis\);", t) or \
-               not re.search(r"if \(!full_rank\) return -1;", t):
-                raise TranslateError("lll.c: the entry rank test does not have the expected form")
-            events.append("Event.rankTestReturnMinus1")
+            if not re.search(r"ibz_mat_4x4_inv_with_det_as_denom\(NULL, &det, &lattice->basis\);", t) or \
+               re.search(r"\b(basis\[|H\[|RED|SWAP|goto)", t):
+                raise TranslateError("lll.c: the entry rank test block does not have the expected form")
+            if re.search(r"int full_rank = ibz_mat_4x4_inv_with_det_as_denom\(NULL, &det, &lattice->basis\);", t) and \
+               re.search(r"if \(!full_rank\) return -1;", t):
+                events.append("Event.rankTestReturnMinus1")
+            elif "return" in t:
+                raise TranslateError("lll.c: the entry rank test returns in an unexpected way")
+            else:
+                events.append("Event.rankComputedNoReturn")
             continue
         if st[0] == "simple":
             t = st[1]
